@@ -9,6 +9,7 @@ from ..model import AnalysisError, ClassInfo, FuncInfo, Program, dotted, norm
 from ..report import Check
 from ..types import FuncScope, members, types_of, walk_own
 from ..util import assigned_names, calls_in, classify_cond, guard_edges, short
+from ..util import canon_dotted as _cdot
 from .cfacts import BASE_CLIENT, ClientRoles, clients, strip_await
 from .common import kwarg
 
@@ -272,6 +273,19 @@ def run(ck: Check, prog: Program) -> None:
     call_dunder = base.methods.get('__call__')
     ok = call_dunder is not None and any(isinstance(x, ast.Return) and isinstance(x.value, ast.Call) and dotted(x.value.func) == 'self.call'
                                          and x.value.args and dotted(x.value.args[0]) == call_dunder.params[1].arg for x in walk_own(call_dunder.node))
+    if not ok and call_dunder is not None:
+        # the same delegation through functools.partial: `partial(self.call, method, …)(*args, **kwargs)`, directly or held in a local
+        from ..flow import Flow as _FlowC
+        from ..util import stmt_node_of as _snoC
+        ccfg = CFG(call_dunder, prog)
+        cfl = _FlowC(ccfg)
+        for x in walk_own(call_dunder.node):
+            if isinstance(x, ast.Return) and isinstance(x.value, ast.Call):
+                n_x = _snoC(ccfg, x.value)
+                fs = [al.expr for al in cfl.alts(n_x, x.value.func)] if n_x is not None else [x.value.func]
+                if fs and all(isinstance(v_, ast.Call) and (dotted(v_.func) or '').rsplit('.', 1)[-1] == 'partial' and len(v_.args) >= 2 and
+                              dotted(v_.args[0]) == 'self.call' and dotted(v_.args[1]) == call_dunder.params[1].arg for v_ in fs):
+                    ok = True
     ck.ob('NOTATION-SHAPE', 'client(method, …) delegates to call with the method name unchanged', ok)
     if not ok:
         ck.finding('NOTATION-SHAPE', base.qualname + '.__call__', 'delegation to call', base.module.rel, base.node.lineno, '__call__ must delegate to self.call(method, *args, **kwargs)')
@@ -375,9 +389,9 @@ def run(ck: Check, prog: Program) -> None:
         ok_c = any(isinstance(x, ast.Call) and dotted(x.func) == 'self.send' and x.args and dotted(x.args[0]) == 'self._requests' for x in walk_own(call.node))
         kws = set()
         for x in walk_own(send.node):
-            if isinstance(x, ast.Call) and dotted(x.func) == 'self._client._send':
+            if isinstance(x, ast.Call) and (_cdot(send, x.func) or dotted(x.func)) == 'self._client._send':
                 kws = {kw.arg for kw in x.keywords if kw.arg}
-                kv = {kw.arg: norm(kw.value) for kw in x.keywords if kw.arg}
+                kv = {kw.arg: (_cdot(send, kw.value) or norm(kw.value)) for kw in x.keywords if kw.arg}
         ok_s = kws >= {'response_class', 'validator', '_trace_ctx'} and kv.get('response_class') == 'self._client.batch_response_class' and kv.get('validator') == 'self._relate'
         ck.ob('NOTATION-SHAPE', f'{ci.name}.call sends the accumulated batch through the client\'s _send with the batch response class and validator', ok_c and ok_s)
         if not (ok_c and ok_s):
